@@ -1,16 +1,17 @@
+\* thorough: as _q with two replies (one duplicated)
 SPECIFICATION Spec
 CONSTANTS
   Callers = {P1, P2, P3}
   CallKinds = {"call", "callWait"}
   MaxCallsPer = 1
   CallReceivers = {}
-  ReplyReceivers = {"RR"}
+  ReplyReceivers = {}
   MaxRecv = 1
   Cap = 1
   MaxAcks = 4
   MaxDupAcks = 1
   MaxNegAcks = 1
-  MaxUnkAcks = 1
+  MaxUnkAcks = 0
   MaxReplies = 2
   MaxDupReplies = 1
   MaxUnkReplies = 0
